@@ -247,6 +247,7 @@ var plans = map[string]*Plan{
 			}
 			return "process-died:" + journalOp(last) + ":" + crashClass(c), "the process serving the management API died (" + c + "); last journalled request: " + last
 		},
+		RaceJobs: func() []Job { return jobs("restfuzz", 2, 20, "workers=16,tier=quick", 60*time.Minute) },
 	},
 	"C15": {
 		Level: "exploration",
@@ -375,6 +376,8 @@ func ctlPlan(id string, q, t int, floor map[string]int64, rule string) *Plan {
 		Jobs: func(tier string) []Job {
 			return jobs("ctlsim", 16, tierN(tier, q, t), "", time.Duration(tierN(tier, 10, 60))*time.Minute)
 		},
+		// thorough tier: two extra workers from a -race build (auxiliary sensor: reports are listed, not judged)
+		RaceJobs: func() []Job { return jobs("ctlsim", 2, 40, "", 60*time.Minute) },
 		CrashSig: func(last, log string) (string, string) {
 			c := jivaCrash(log)
 			if c == "" {
